@@ -22,23 +22,40 @@ def gen_universe(rng, tb):
     def mkdeps(owner):
         deps, used = [], set()
         for _ in range(rng.choice([0, 1, 1, 2, 2, 3])):
-            dn = rng.choice(names + (["root"] if rng.random() < 0.05 else []))
+            dn = rng.choice(names + (["root"] if rng.random() < 0.15 else []))
             if dn in used or dn == owner:
                 continue
             used.add(dn)
-            hv = have.get(dn, [1])
+            hv = have.get(dn, ROOTV)
             good = [r for r in range(1, nr + 1) if set(hv) & set(tb["sat"][r - 1])]
             r = rng.choice(good) if good and rng.random() < 0.9 else rng.randint(1, nr)
             m = rng.randint(1, nm) if rng.random() < 0.35 else 0
             ex = rng.choice([[], [], [], ["test"], ["dev"], ["test", "dev"]])
             deps.append({"name": dn, "r": r, "m": m, "extras": ex})
         return deps
-    uni = [{"name": nm_, "versions": [{"v": v, "deps": mkdeps(nm_)} for v in have[nm_]]} for nm_ in names]
+    uni = []
+    for nm_ in names:
+        vers = []
+        for v in have[nm_]:
+            # a version often repeats the requirements of its predecessor (a pin replaced in place then re-declares the same text)
+            if vers and rng.random() < 0.4:
+                deps = [dict(d) for d in vers[-1]["deps"]]
+                if deps and rng.random() < 0.3:
+                    deps[rng.randrange(len(deps))]["r"] = rng.randint(1, nr)
+            else:
+                deps = mkdeps(nm_)
+            vers.append({"v": v, "deps": deps})
+        uni.append({"name": nm_, "versions": vers})
     rootdeps = []
     while len(rootdeps) < 2:
         rootdeps = [d for d in mkdeps("root") if d["name"] != "root"] + rootdeps
-    uni.append({"name": "root", "versions": [{"v": 1, "deps": rootdeps}, {"v": 5, "deps": []}]})
-    return uni, {"name": "root", "v": 1}
+    # the root package has other versions with requirements of their own: they must never leak into the graph
+    rv = rng.choice(ROOTV)
+    uni.append({"name": "root", "versions": [{"v": v, "deps": rootdeps if v == rv else [d for d in mkdeps("root") if d["name"] != "root"]} for v in ROOTV]})
+    return uni, {"name": "root", "v": rv}
+
+
+ROOTV = [1, 5, 8]
 
 
 def run(ctx):
@@ -58,7 +75,7 @@ def run(ctx):
     else:
         rng = random.Random(ctx.seed * 49979687 + 3)
         cases = []
-        for _ in range(400 if ctx.tier == "quick" else 10000):
+        for _ in range(2500 if ctx.tier == "quick" else 40000):
             uni, root = gen_universe(rng, tb)
             cases.append({"universe": uni, "root": root})
     casef = os.path.join(wdir, "cases.ndjson")
@@ -88,7 +105,7 @@ def run(ctx):
         o = json.loads(lines[idx - 1])
         g = o["graph"]
         detail = {"k": x["k"]}
-        if x["law"] == "edge-from-false-marker-requirement":
+        if x["law"].startswith(("edge-from-", "root-carries-")):
             e = g["edges"][x["k"] - 1]
             detail = {"edge": e, "from": g["nodes"][e["f"] - 1], "to": g["nodes"][e["t"] - 1], "requirement": tb["reqs"][e["r"] - 1],
                       "marker": tb["markers"][e["m"] - 1] if e["m"] else ""}
